@@ -30,7 +30,7 @@ REQUIRED = ["NVM_QUEUED", "NVM_DROPPED", "NVM_CLOSED", "NVM_AUTH", "NVM_USER", "
 REQUIRED_SYS = ["NSYS_QUEUED", "NSYS_AUTH", "NSYS_USER", "NSYS_NOCONTROL", "NSYS_BACKEND", "NSYS_NOTIFIED",
                 "NSYS_NH_USER", "NE2E", "NCFG_TOML", "NCFG_YAML", "NCFG_JSON", "NCFG_INI", "NCFG_FLAGS", "NCFG_DEFAULT_REFUSED",
                 "NXTCP_KCP", "NXTCP_QUIC", "NXTCP_MISMATCHED", "NXTCP_KCP_SILENT_FIRST_OK", "NXTCP_QUIC_SILENT_FIRST",
-                "NFIRST", "NSYS_RACE_LOSER"]
+                "NFIRST", "NSYS_RACE_LOSER", "NLONG", "NSYS_PLUGIN_REWRITE", "NSYS_PLUGIN_REJECT"]
 
 
 def recipe(c: Check):
